@@ -47,6 +47,7 @@ type scRT struct {
 }
 
 type scObs struct {
+	Full  bool       `json:"full"` // false: the interrupted iteration and the print/parse round trip were not made
 	Unl   bool       `json:"unl"`
 	Empty bool       `json:"empty"`
 	Len   int        `json:"len"` // -1: not called (documented to panic on the unlimited scope)
@@ -70,6 +71,7 @@ type scDef struct {
 }
 
 type scProg struct {
+	Slim   bool       `json:"slim"` // observe less of each value (the bulk of the ordered pairs)
 	Src    string     `json:"src"`
 	Defs   []scDef    `json:"defs"`
 	Probes [][]string `json:"probes"`
@@ -77,6 +79,7 @@ type scProg struct {
 
 type scEvent struct {
 	Op       string     `json:"op"`
+	Slim     bool       `json:"slim"`
 	Src      string     `json:"src"`
 	Defs     []scDef    `json:"defs"`
 	Probes   [][]string `json:"probes"`
@@ -119,8 +122,8 @@ func scRender(fields []scField, seps []string) string {
 	return b.String()
 }
 
-func scObserve(s ociauth.Scope, m int) *scObs {
-	o := &scObs{Len: -1}
+func scObserve(s ociauth.Scope, m int, full bool) *scObs {
+	o := &scObs{Len: -1, Full: full}
 	o.Unl = s.IsUnlimited()
 	o.Empty = s.IsEmpty()
 	if !o.Unl {
@@ -129,6 +132,11 @@ func scObserve(s ociauth.Scope, m int) *scObs {
 	o.Iter = scIter(s)
 	o.Text = s.String()
 	o.Stop = scStop{M: m, Got: [][]string{}}
+	o.RT = scRT{Iter: [][]string{}}
+	if !full {
+		o.Stop.M = 0
+		return o
+	}
 	declined := false
 	s.Iter()(func(rs ociauth.ResourceScope) bool {
 		if declined {
@@ -154,7 +162,7 @@ func scExec(p scProg, rnd *rand.Rand) (ev interface{}) {
 			for i := range p.Defs {
 				p.Defs[i].Obs = nil
 			}
-			ev = map[string]interface{}{"op": "panic", "src": p.Src, "defs": p.Defs, "probes": p.Probes, "msg": fmt.Sprint(r)}
+			ev = map[string]interface{}{"op": "panic", "slim": p.Slim, "src": p.Src, "defs": p.Defs, "probes": p.Probes, "msg": fmt.Sprint(r)}
 		}
 	}()
 	vals := make([]ociauth.Scope, len(p.Defs))
@@ -182,14 +190,14 @@ func scExec(p scProg, rnd *rand.Rand) (ev interface{}) {
 			panic("harness: unknown definition kind " + d.K)
 		}
 	}
-	e := scEvent{Op: "case", Src: p.Src, Defs: p.Defs, Probes: p.Probes}
+	e := scEvent{Op: "case", Slim: p.Slim, Src: p.Src, Defs: p.Defs, Probes: p.Probes}
 	// observe only after everything is built: later operations must not disturb earlier values
 	for i := range p.Defs {
 		m := p.Defs[i].m
 		if m == 0 {
 			m = 1 + rnd.Intn(3)
 		}
-		p.Defs[i].Obs = scObserve(vals[i], m)
+		p.Defs[i].Obs = scObserve(vals[i], m, !p.Slim)
 	}
 	for i := range vals {
 		h := make([]bool, len(p.Probes))
@@ -366,7 +374,7 @@ type scCase struct {
 }
 
 // scCaseProg: the program executed for one state of OciScopeMC.
-func scCaseProg(rnd *rand.Rand, u [][]string, c scCase) scProg {
+func scCaseProg(rnd *rand.Rand, u [][]string, c scCase, full bool) scProg {
 	pick := func(idx []int) [][]string {
 		out := [][]string{}
 		for _, i := range idx {
@@ -408,6 +416,10 @@ func scCaseProg(rnd *rand.Rand, u [][]string, c scCase) scProg {
 			first(b, c.BU),          // 2
 			scRefDef("union", 1, 2), // 3
 			scRefDef("union", 2, 1), // 4
+		}
+		if !full {
+			defs = append(defs, scRefDef("union", 3, 2)) // 5 adds nothing to a union
+			return scProg{Slim: true, Src: "tlc", Defs: defs, Probes: probes}
 		}
 		if c.AU {
 			defs = append(defs, scRefDef("zero", 0, 0))
@@ -551,6 +563,7 @@ func scopeCmd(args []string) error {
 	seed := fs.Int64("seed", 1, "seed (shuffles, white space, random programs)")
 	n := fs.Int("n", 0, "number of random programs")
 	cases := fs.String("cases", "", "jsonl file of OciScopeMC cases (first the universe line)")
+	fullEvery := fs.Int("full-every", 1, "pairs: run the long program (scope strings, interrupted iteration, print/parse) on every k-th pair, the short one on the others")
 	replay := fs.String("replay", "", "trace or replay file whose programs are re-executed")
 	out := fs.String("out", "", "trace file")
 	fs.Parse(args)
@@ -573,6 +586,7 @@ func scopeCmd(args []string) error {
 	}
 	if *cases != "" {
 		var u [][]string
+		npair := 0
 		err := readLines(*cases, func(line []byte) error {
 			var c scCase
 			if err := json.Unmarshal(line, &c); err != nil {
@@ -585,7 +599,8 @@ func scopeCmd(args []string) error {
 			if u == nil {
 				return fmt.Errorf("case before the universe line")
 			}
-			progs = append(progs, scCaseProg(rnd, u, c))
+			npair++
+			progs = append(progs, scCaseProg(rnd, u, c, c.Kind == "single" || npair%*fullEvery == 0))
 			return nil
 		})
 		if err != nil {
